@@ -174,7 +174,9 @@ def check_worklist(idx: Index, rep: Report) -> None:
     st, key, val = st_stores[0]
     dn, dk = dels[0]
     ktxt = resolved_text(cfg, key, cfg.node_of(st))
-    if ktxt != f"self._map[{item}]":
+    # `index = self._map.pop(item, None); if index is None: return`: delete-if-present and presence test in one step
+    pop_default = ktxt == f"self._map.pop({item}, None)" and any((unparse(t_) == f"{unparse(key)} is None" and not p_) or (unparse(t_) == f"{unparse(key)} is not None" and p_) for t_, p_ in guard_facts(f.node, st))
+    if ktxt != f"self._map[{item}]" and not pop_default:
         # also accept .pop(item) result
         if ktxt != f"self._map.pop({item})":
             bad.append(("index", f"tombstone written at `{ktxt}`, must be self._map[{item}]"))
@@ -183,7 +185,7 @@ def check_worklist(idx: Index, rep: Report) -> None:
     if unparse(dk) != item:
         bad.append(("map-delete", f"map entry deleted for `{unparse(dk)}`, must be `{item}`"))
     ns, nd = cfg.node_of(st), cfg.node_of(dn)
-    if ns != nd:
+    if ns != nd and not pop_default:
         for a, b in ((ns, nd), (nd, ns)):
             before = cfg.path_avoiding(cfg.entry, a, lambda n, b=b: n.id == b)
             after = cfg.path_avoiding(a, cfg.exit, lambda n, b=b: n.id == b, follow_exc=False)
@@ -198,7 +200,7 @@ def check_worklist(idx: Index, rep: Report) -> None:
             bad.append(("order", "self._map[item] is read after the entry was deleted"))
     facts = guard_facts(f.node, st)
     if not any(isinstance(t, ast.Compare) and isinstance(t.ops[0], ast.In) and pol and unparse(t.left) == item and attr_chain(t.comparators[0]) == "self._map" for t, pol in facts):
-        if not any(isinstance(t, ast.Compare) and isinstance(t.ops[0], ast.NotIn) and not pol and unparse(t.left) == item for t, pol in facts):
+        if not any(isinstance(t, ast.Compare) and isinstance(t.ops[0], ast.NotIn) and not pol and unparse(t.left) == item for t, pol in facts) and not pop_default:
             bad.append(("guard", "remove must be guarded by `item in self._map`"))
     if bad:
         for k, m in bad:
@@ -244,6 +246,20 @@ def check_worklist(idx: Index, rep: Report) -> None:
         rt = unparse(ret.value) if ret.value else "None"
         if rt in ("bool(self._map)", "len(self._map) > 0", "len(self._map) != 0"):
             continue  # deciding on the map is exact as well
+        if rt == "True":
+            # non-empty and the last entry is a real item
+            fs_ = [(unparse(t_), p_) for t_, p_ in guard_facts(f.node, ret)]
+            if any(t_ in ("self._stack", "len(self._stack) > 0", "len(self._stack) != 0") and p_ for t_, p_ in fs_) and any((t_ in ("self._stack[-1] is not _MISSING", "self._stack[-1] != _MISSING") and p_) or (t_ in ("self._stack[-1] is _MISSING", "self._stack[-1] == _MISSING") and not p_) for t_, p_ in fs_):
+                continue
+            bad.append(("result", "`return True` is not guarded by `stack non-empty and last entry is not the tombstone`"))
+            continue
+        if rt == "False":
+            # directly after a tombstone-discarding loop whose test is the non-emptiness of the stack
+            prev = [w_ for w_ in good_loops if unparse(w_.test) in ("self._stack", "len(self._stack) > 0", "len(self._stack) != 0") and w_.lineno < ret.lineno and not any(x_ is ret for x_ in ast.walk(w_))]
+            if prev and not guard_facts(f.node, ret):
+                continue
+            bad.append(("result", "`return False` is not the exit of the tombstone-discarding loop on an empty stack"))
+            continue
         if rt not in ("bool(self._stack)", "len(self._stack) > 0", "len(self._stack) != 0"):
             bad.append(("result", f"`return {rt}` does not report emptiness of the stack/map"))
             continue
